@@ -7,6 +7,6 @@ if ! git apply --check "$P" 2>/dev/null; then
 fi
 git apply "$P" || exit 3
 for prop in "$@"; do
-  ( cd /verif && ./bin/check "$prop" 2>&1 | grep -E "^(VIOLATION|KNOWN-FINDING|ANALYSIS-BROKEN|construct|finding|rule|C[0-9]+ tier)" | cut -c1-260 | head -${MUT_LINES:-14} )
+  ( cd /verif && STV_NO_EVIDENCE=1 ./bin/check "$prop" 2>&1 | grep -E "^(VIOLATION|KNOWN-FINDING|ANALYSIS-BROKEN|construct|finding|rule|C[0-9]+ tier)" | cut -c1-260 | head -${MUT_LINES:-14} )
 done
 git checkout -- . 
